@@ -557,6 +557,103 @@ func (v *FV) execBody(fr *Frame, entry *State) []Exit {
 	}
 	outs := map[*ssa.BasicBlock]map[int]outEdge{} // block -> succ index -> state+cond
 	var exits []Exit
+	runBlock := func(b *ssa.BasicBlock, st *State) {
+		// instructions
+		terminated := false
+		for _, instr := range b.Instrs {
+			if _, ok := instr.(*ssa.Phi); ok {
+				continue
+			}
+			switch in := instr.(type) {
+			case *ssa.If:
+				c := v.val(fr, in.Cond).T
+				ct := v.define(fr.prefix+"c_"+fmt.Sprint(b.Index), "Bool", fmt.Sprintf("(and %s %s)", st.reach, c))
+				cf := v.define(fr.prefix+"nc_"+fmt.Sprint(b.Index), "Bool", fmt.Sprintf("(and %s (not %s))", st.reach, c))
+				outs[b] = map[int]outEdge{0: {st, ct}, 1: {st.clone(), cf}}
+				terminated = true
+			case *ssa.Jump:
+				outs[b] = map[int]outEdge{0: {st, st.reach}}
+				terminated = true
+			case *ssa.Return:
+				var res []TV
+				for _, r := range in.Results {
+					res = append(res, v.val(fr, r))
+				}
+				exits = append(exits, Exit{st: st, results: res})
+				terminated = true
+			case *ssa.Panic:
+				v.doPanic(fr, st, in)
+				exits = append(exits, Exit{st: st, panics: true})
+				terminated = true
+			default:
+				v.curSt = st
+				mayPanic := false
+				if ci, ok := instr.(*ssa.Call); ok && v.quiet == 0 && len(st.defers) > 0 && v.callMayPanic(fr, ci.Common()) {
+					mayPanic = true
+				}
+				v.execInstr(fr, st, instr)
+				if mayPanic {
+					// the callee panics at some point of its execution: start from its
+					// effects (ghost call trace included), then anything may have happened
+					if ex, ok := v.panicPath(fr, st.clone(), instr.(*ssa.Call)); ok {
+						exits = append(exits, ex)
+					}
+				}
+			}
+			if terminated {
+				break
+			}
+		}
+	}
+	if fr.con != nil && fr.con.Paths && len(fr.loops) == 0 && fr.isTop {
+		// path mode: no merges at joins, every path through the (loop-free) body is executed on its own
+		type item struct {
+			b    *ssa.BasicBlock
+			st   *State
+			from *ssa.BasicBlock
+		}
+		work := []item{{fn.Blocks[0], entry, nil}}
+		steps := 0
+		for len(work) > 0 {
+			it := work[len(work)-1]
+			work = work[:len(work)-1]
+			steps++
+			if steps > 4000 {
+				fail("path mode: too many paths in %s", fn.Name())
+			}
+			st := it.st
+			if it.from != nil {
+				pi := -1
+				for i, p := range it.b.Preds {
+					if p == it.from {
+						pi = i
+					}
+				}
+				for _, instr := range it.b.Instrs {
+					phi, ok := instr.(*ssa.Phi)
+					if !ok {
+						break
+					}
+					tv := v.setVal(fr, phi, v.val(fr, phi.Edges[pi]).T)
+					if phi.Comment != "" {
+						st.env[phi.Comment] = tv
+						delete(st.addr, phi.Comment)
+					}
+				}
+			}
+			delete(outs, it.b)
+			runBlock(it.b, st)
+			om := outs[it.b]
+			for si := len(it.b.Succs) - 1; si >= 0; si-- {
+				if oe, ok := om[si]; ok {
+					ns := oe.st
+					ns.reach = oe.cond
+					work = append(work, item{it.b.Succs[si], ns, it.b})
+				}
+			}
+		}
+		return exits
+	}
 	for _, b := range order {
 		var st *State
 		li := fr.loopOf[b]
@@ -683,52 +780,7 @@ func (v *FV) execBody(fr *Frame, entry *State) []Exit {
 		if li != nil {
 			st = v.loopHeader(fr, li, st)
 		}
-		// instructions
-		terminated := false
-		for _, instr := range b.Instrs {
-			if _, ok := instr.(*ssa.Phi); ok {
-				continue
-			}
-			switch in := instr.(type) {
-			case *ssa.If:
-				c := v.val(fr, in.Cond).T
-				ct := v.define(fr.prefix+"c_"+fmt.Sprint(b.Index), "Bool", fmt.Sprintf("(and %s %s)", st.reach, c))
-				cf := v.define(fr.prefix+"nc_"+fmt.Sprint(b.Index), "Bool", fmt.Sprintf("(and %s (not %s))", st.reach, c))
-				outs[b] = map[int]outEdge{0: {st, ct}, 1: {st.clone(), cf}}
-				terminated = true
-			case *ssa.Jump:
-				outs[b] = map[int]outEdge{0: {st, st.reach}}
-				terminated = true
-			case *ssa.Return:
-				var res []TV
-				for _, r := range in.Results {
-					res = append(res, v.val(fr, r))
-				}
-				exits = append(exits, Exit{st: st, results: res})
-				terminated = true
-			case *ssa.Panic:
-				v.doPanic(fr, st, in)
-				exits = append(exits, Exit{st: st, panics: true})
-				terminated = true
-			default:
-				v.curSt = st
-				mayPanic := false
-				if ci, ok := instr.(*ssa.Call); ok && v.quiet == 0 && len(st.defers) > 0 && v.callMayPanic(fr, ci.Common()) {
-					mayPanic = true
-				}
-				v.execInstr(fr, st, instr)
-				if mayPanic {
-					// the callee panics at some point of its execution: start from its
-					// effects (ghost call trace included), then anything may have happened
-					if ex, ok := v.panicPath(fr, st.clone(), instr.(*ssa.Call)); ok {
-						exits = append(exits, ex)
-					}
-				}
-			}
-			if terminated {
-				break
-			}
-		}
+		runBlock(b, st)
 		// back edges leaving this block: check invariants
 		if om, ok := outs[b]; ok {
 			for si, s := range b.Succs {
